@@ -34,6 +34,10 @@ def judge(text, container, scripting):
     except Exception as e:
         return ("html5lib raised %s: %s" % (type(e).__name__, str(e)[:80]), "raised:" + type(e).__name__, exp, None)
     if got != exp:
+        combo = rtb.classify(text, got, scripting, container)
+        if combo is not None:
+            return ("tree differs from the WHATWG algorithm's (explained by modelled deviation %s)" % "+".join(combo),
+                    "deviation:" + "+".join(combo), exp, got)
         return ("tree differs from the WHATWG algorithm's", classify(exp, got), exp, got)
     return None
 
@@ -93,7 +97,8 @@ def run(run):
         cfgs = [(None, False), (None, True)] + [(c, False) for c in frag[theme]]
         for container, scripting in cfgs:
             dd = d if container is None else max(2, d - 1)
-            res = engine.product_bfs(step, len(tw.THEMES[theme]), dd, bisim_depth=max(0, dd - 2), ctx=(theme, container, scripting))
+            th = "TUF" if (theme == "TU" and container is not None) else theme
+            res = engine.product_bfs(step, len(tw.THEMES[th]), dd, bisim_depth=max(0, dd - 2), ctx=(th, container, scripting))
             tot_s += res.states
             tot_t += res.transitions
             bc += res.bisim_checks
